@@ -32,22 +32,58 @@ Ltac norm_accept :=
 
 (* ================================================================ DTLS 1.2 client *)
 
-Theorem client_accept_implies_checks :
-  forall c v, client12 c v = Accept -> client_required c v = true.
+Theorem client_accept_implies_checks_with :
+  forall bind c v, client12_with bind c v = Accept -> client_required c v = true.
 Proof.
-  intros [sk hvpc hvc pcb] [su cm cn cp ske sa sg ch nm tm ca vpc vc fa fv].
-  unfold client12, client12_flight3, client12_init, client12_fin, client12_vc, client_required, sv_x509_ok.
+  intros bind [sk hvpc hvc pcb] [su cm cn cp ske sa sg ch nm tm ca vpc vc fa fv fk bl].
+  unfold client12_with, client12_flight3, client12_init_with, client12_fin, client12_vc, client_required, sv_x509_ok.
   cbn [cc_skip_verify cc_has_vpc cc_has_vc cc_psk_cb sv_suite sv_cert_msg sv_certs_nonempty sv_cert_parses
        sv_ske_msg sv_scheme_allowed sv_sig_valid sv_chain_ok sv_name_ok sv_time_ok sv_certalgs_ok sv_vpc_ok
-       sv_vc_ok sv_fin_arrives sv_fin_valid].
+       sv_vc_ok sv_fin_arrives sv_fin_valid sv_scheme_fits_key sv_signed_by_leaf].
   intros H. apply andthen_accept in H. destruct H as [H3 H]. apply andthen_accept in H. destruct H as [Hi Hf].
   apply wait_unless_accept in Hf. destruct Hf as [Hfa Hfv]. apply check_accept in Hfv.
   apply wait_unless_accept in H3. destruct H3 as [Hske H3].
   destruct su; cbn [is_cert] in *; norm_accept;
     destruct pcb, cm, ske, fa; cbn in *; try discriminate;
     repeat match goal with H : _ = true |- _ => rewrite H end; try reflexivity;
-    destruct sk, hvpc, hvc, sa, cn, cp, sg; cbn in *; try discriminate;
+    destruct sk, hvpc, hvc, sa, cn, cp, sg, bind, fk; cbn in *; try discriminate;
     repeat match goal with H : _ = true |- _ => rewrite H end; reflexivity.
+Qed.
+
+Theorem client_accept_implies_checks :
+  forall c v, client12 c v = Accept -> client_required c v = true.
+Proof. intros c v. apply client_accept_implies_checks_with. Qed.
+
+(* F45: with the repaired verification the claimed scheme fits the key; under unforgeability the
+   signature then really is by the leaf key over this handshake *)
+Theorem client_accept_binds_signature :
+  forall c v, sig_sound_s v -> client12_with true c v = Accept -> sv_suite v = SCert ->
+    sv_scheme_fits_key v = true /\ sv_signed_by_leaf v = true /\ client_credential c v = true.
+Proof.
+  intros c v Hsound Ha Hs.
+  assert (Hr := client_accept_implies_checks_with true c v Ha).
+  unfold client12_with in Ha. apply andthen_accept in Ha. destruct Ha as [_ Ha].
+  apply andthen_accept in Ha. destruct Ha as [Ha _]. unfold client12_init_with in Ha. rewrite Hs in Ha.
+  apply andthen_accept in Ha. destruct Ha as [_ Ha]. apply andthen_accept in Ha. destruct Ha as [Ha _].
+  apply check_accept in Ha. cbn [negb orb] in Ha.
+  apply andb_true_iff in Ha. destruct Ha as [Ha Hsig]. apply andb_true_iff in Ha. destruct Ha as [_ Hfit].
+  assert (Hl := Hsound Hfit Hsig).
+  repeat split; auto. unfold client_credential. rewrite Hr, Hfit, Hl, Hs. reflexivity.
+Qed.
+
+(* ... whereas the code before the repair accepted a signature forged from the victim's public key
+   alone: ECDSA leaf, claimed scheme Ed25519 (no digest), chain and name genuinely valid *)
+Definition f45_ccfg : ccfg := mk_ccfg false false false false.
+Definition f45_sview : sview :=
+  mk_sview SCert true true true true true (* scheme in the allowed list *) true (* the ECDSA routine accepts *)
+           true true true true true true true true false (* scheme does not fit the key *) false (* not by the leaf key *).
+
+Theorem client_scheme_confusion_refuted :
+  exists c v, sig_sound_s v /\ cc_skip_verify c = false /\ sv_suite v = SCert /\
+    client12_with false c v = Accept /\ sv_scheme_fits_key v = false /\ sv_signed_by_leaf v = false /\
+    client_credential c v = false.
+Proof.
+  exists f45_ccfg, f45_sview. repeat split; try reflexivity. intros H. discriminate H.
 Qed.
 
 (* the named checks, one by one (certificate suites) *)
@@ -120,13 +156,14 @@ Qed.
 
 (* ================================================================ DTLS 1.2 server *)
 
-Theorem server_accept_implies_checks_with :
-  forall chk s v, server12_with chk s v = Accept -> server_required s v = true.
+Theorem server_accept_implies_checks_gen :
+  forall bind chk s v, server12_gen bind chk s v = Accept -> server_required s v = true.
 Proof.
-  intros chk [p hvpc hvc] [su cke cg cp cvm sa cvv chv vpc vc fa fv].
-  unfold server12_with, server12_certs, server12_policy, server12_vc, server_required, cl_pop.
+  intros bind chk [p hvpc hvc] [su cke cg cp cvm sa cvv chv vpc vc fa fv cmsg fk bl].
+  unfold server12_gen, server12_certs_with, server12_policy, server12_vc, server_required, cl_pop.
   cbn [sc_policy sc_has_vpc sc_has_vc cl_suite cl_cke_msg cl_certs_given cl_cert_parses cl_cv_msg
-       cl_scheme_allowed cl_cv_valid cl_chain_valid cl_vpc_ok cl_vc_ok cl_fin_arrives cl_fin_valid].
+       cl_scheme_allowed cl_cv_valid cl_chain_valid cl_vpc_ok cl_vc_ok cl_fin_arrives cl_fin_valid
+       cl_cert_msg cl_scheme_fits_key cl_signed_by_leaf].
   intros H. apply wait_unless_accept in H. destruct H as [Hcke H].
   apply andthen_accept in H. destruct H as [Hc H].
   apply wait_unless_accept in H. destruct H as [Hfa H].
@@ -135,12 +172,17 @@ Proof.
   destruct cvm, cg; cbn in *; try discriminate;
     destruct sa; cbn in *; try discriminate;
     destruct cp; cbn in *; try discriminate;
+    destruct bind, fk; cbn in *; try discriminate;
     destruct cvv; cbn in *; try discriminate;
     destruct su, p; cbn in *; norm_accept;
     destruct chv; cbn in *; try discriminate;
     destruct hvpc, vpc; cbn in *; try discriminate;
     destruct hvc, vc; cbn in *; try discriminate; reflexivity.
 Qed.
+
+Theorem server_accept_implies_checks_with :
+  forall chk s v, server12_with chk s v = Accept -> server_required s v = true.
+Proof. intros chk s v. apply server_accept_implies_checks_gen. Qed.
 
 Theorem server_accept_implies_checks :
   forall s v, server12 s v = Accept -> server_required s v = true.
@@ -191,10 +233,8 @@ Qed.
 (* as the code stands the server never looks at the client's verify_data in the full handshake:
    the verdict does not depend on it (F5; consequences for transcript integrity in Hs/C04TranscriptSound) *)
 Theorem server12_ignores_client_verify_data :
-  forall s v b, server12_with false s v =
-    server12_with false s (mk_cview (cl_suite v) (cl_cke_msg v) (cl_certs_given v) (cl_cert_parses v) (cl_cv_msg v)
-      (cl_scheme_allowed v) (cl_cv_valid v) (cl_chain_valid v) (cl_vpc_ok v) (cl_vc_ok v) (cl_fin_arrives v) b).
-Proof. intros s [su cke cg cp cvm sa cvv chv vpc vc fa fv] b. reflexivity. Qed.
+  forall s v b, server12_with false s v = server12_with false s (cl_with_fin_valid v b).
+Proof. intros s [su cke cg cp cvm sa cvv chv vpc vc fa fv cmsg fk bl] b. reflexivity. Qed.
 
 Theorem server12_fixed_checks_client_verify_data :
   forall s v, server12_with true s v = Accept -> cl_fin_valid v = true.
@@ -205,17 +245,118 @@ Proof.
   apply check_accept in H. exact H.
 Qed.
 
+(* ================================================================ DTLS 1.2 server: F45 and F46 *)
+
+Theorem server_accept_binds_signature :
+  forall chk s v, sig_sound_c v -> server12_gen true chk s v = Accept -> cl_certs_given v = true ->
+    cl_scheme_fits_key v = true /\ cl_signed_by_leaf v = true /\ server_credential s v = true.
+Proof.
+  intros chk s v Hsound Ha Hg.
+  assert (Hr := server_accept_implies_checks_gen true chk s v Ha).
+  unfold server12_gen in Ha. apply wait_unless_accept in Ha. destruct Ha as [_ Ha].
+  apply andthen_accept in Ha. destruct Ha as [Ha _].
+  unfold server12_certs_with in Ha. rewrite Hg in Ha. cbn [negb] in Ha.
+  destruct (cl_cv_msg v); [|discriminate Ha].
+  destruct (cl_scheme_allowed v); cbn in Ha; [|discriminate Ha].
+  destruct (cl_cert_parses v); cbn in Ha; [|discriminate Ha].
+  destruct (cl_scheme_fits_key v) eqn:Hfit; cbn in Ha; [|discriminate Ha].
+  destruct (cl_cv_valid v) eqn:Hsig; cbn in Ha; [|discriminate Ha].
+  assert (Hl := Hsound Hfit Hsig).
+  repeat split; auto. unfold server_credential. rewrite Hr, Hfit, Hl, Hg. reflexivity.
+Qed.
+
+Definition f45_scfg : scfg := mk_scfg RequireAndVerifyClientCert false false.
+Definition f45_cview : cview :=
+  mk_cview SCert true true true true true true (* the ECDSA routine accepts *) true true true true true
+           true false (* scheme does not fit the key *) false (* not by the leaf key *).
+
+Theorem server_scheme_confusion_refuted :
+  exists s v, sig_sound_c v /\ sc_policy s = RequireAndVerifyClientCert /\ cl_chain_valid v = true /\
+    (forall chk, server12_gen false chk s v = Accept) /\
+    cl_scheme_fits_key v = false /\ cl_signed_by_leaf v = false /\ server_credential s v = false.
+Proof.
+  exists f45_scfg, f45_cview. repeat split; try reflexivity.
+  - intros H. discriminate H.
+  - intros [|]; reflexivity.
+Qed.
+
+(* F46, repaired: a session that can be resumed was stored by a handshake the server ACCEPTED, so
+   the client met the policy there *)
+Theorem resumable_session_was_accepted :
+  forall bind chk s hs v, server12_session_remains true bind chk s hs v = true ->
+    server12_gen bind chk s v = Accept /\ server_required s v = true.
+Proof.
+  intros bind chk s hs v H. unfold server12_session_remains, server12_session_stored in H.
+  apply andb_true_iff in H. destruct H as [H _]. apply andb_true_iff in H. destruct H as [_ H].
+  apply is_accept_true in H. split; auto. eapply server_accept_implies_checks_gen; eauto.
+Qed.
+
+(* hence a second connection is established only if the client met the policy in one of the two
+   full handshakes it took part in *)
+Theorem second_conn_accept_implies_checks :
+  forall bind chk s hs v1 v2 ra rv,
+    server12_second_conn true bind chk s hs v1 v2 ra rv = Accept ->
+    server_required s v1 = true \/ server_required s v2 = true.
+Proof.
+  intros bind chk s hs v1 v2 ra rv H. unfold server12_second_conn in H.
+  destruct (server12_session_remains true bind chk s hs v1) eqn:E.
+  - left. eapply resumable_session_was_accepted; eauto.
+  - right. eapply server_accept_implies_checks_gen; eauto.
+Qed.
+
+(* F46, before the repair: RequireAndVerifyClientCert, the client sends no Certificate message and
+   stops after ClientKeyExchange (its Finished never arrives): the verdict is Wait, no alert deletes
+   the entry, and the abbreviated handshake that follows is accepted *)
+Definition f46_scfg : scfg := mk_scfg RequireAndVerifyClientCert false false.
+Definition f46_view1 : cview :=
+  mk_cview SCert true false (* no certificate *) false false false false false false false
+           false (* Finished never arrives *) false false (* no Certificate message *) false false.
+
+Theorem refused_client_resumes_refuted :
+  exists s v1, sc_policy s = RequireAndVerifyClientCert /\ cl_certs_given v1 = false /\
+    (forall bind chk, server12_gen bind chk s v1 = Wait) /\
+    (forall bind chk v2, server12_second_conn false bind chk s true v1 v2 true true = Accept) /\
+    server_required s v1 = false /\
+    (* although no full handshake of a certificate-less client is ever accepted under this policy *)
+    (forall bind chk v2, cl_certs_given v2 = false -> is_anon (cl_suite v2) = false ->
+       server12_gen bind chk s v2 <> Accept).
+Proof.
+  exists f46_scfg, f46_view1.
+  split; [reflexivity|]. split; [reflexivity|].
+  split; [intros [|] [|]; reflexivity|].
+  split; [intros [|] [|] v2; reflexivity|].
+  split; [reflexivity|].
+  intros bind chk v2 Hg Hn Ha. apply server_accept_implies_checks_gen in Ha.
+  unfold server_required, cl_pop in Ha. cbn [f46_scfg sc_policy] in Ha. rewrite Hg, Hn in Ha.
+  destruct (cl_fin_arrives v2), (negb (sc_has_vc f46_scfg) || cl_vc_ok v2); cbn in Ha; discriminate Ha.
+Qed.
+
+(* the statement that holds of the code as modelled, whichever way the F46 switch is set *)
+Theorem second_conn_as_coded :
+  if server12_stores_session_after_checks
+  then forall s hs v1 v2 ra rv, server12_second s hs v1 v2 ra rv = Accept ->
+         server_required s v1 = true \/ server_required s v2 = true
+  else exists s v1, sc_policy s = RequireAndVerifyClientCert /\ cl_certs_given v1 = false /\
+         server_required s v1 = false /\ forall v2, server12_second s true v1 v2 true true = Accept.
+Proof.
+  unfold server12_second. destruct server12_stores_session_after_checks.
+  - intros s hs v1 v2 ra rv. apply second_conn_accept_implies_checks.
+  - exists f46_scfg, f46_view1.
+    split; [reflexivity|]. split; [reflexivity|]. split; [reflexivity|].
+    intros v2. destruct verify_binds_scheme_to_key, server12_checks_client_finished; reflexivity.
+Qed.
+
 (* ================================================================ DTLS 1.3 *)
 
 (* server side (flight sent by the client): sound for every policy *)
-Theorem server13_accept_implies_checks :
-  forall req k v, p_from_client v = true -> flight13_with req k v = Accept -> server13_required k v = true.
+Theorem server13_accept_implies_checks_gen :
+  forall bind req k v, p_from_client v = true -> flight13_gen bind req k v = Accept -> server13_required k v = true.
 Proof.
-  intros req [sk p hvpc hvc] [fc cm cn cp cvm sa cvv x vpc vc fv] Hfc. cbn in Hfc. subst fc.
-  unfold flight13_with, flight13_certificate, flight13_certificate_verify, flight13_identity,
+  intros bind req [sk p hvpc hvc] [fc cm cn cp cvm sa cvv x vpc vc fv oid fk bl] Hfc. cbn in Hfc. subst fc.
+  unfold flight13_gen, flight13_certificate, flight13_certificate_verify_with, flight13_identity,
     flight13_finished_with, server13_required, p_pop, p_has_certs.
   cbn [k_skip_verify k_policy k_has_vpc k_has_vc p_from_client p_cert_msg p_certs_nonempty p_cert_parses p_cv_msg
-       p_scheme_allowed p_cv_valid p_x509_ok p_vpc_ok p_vc_ok p_fin_valid].
+       p_scheme_allowed p_cv_valid p_x509_ok p_vpc_ok p_vc_ok p_fin_valid p_pss_oid_ok p_scheme_fits_key p_signed_by_leaf].
   intros H. apply andthen_accept in H. destruct H as [_ H]. apply andthen_accept in H. destruct H as [Hcv Hf].
   destruct cvm, cm, cn; cbn in *; norm_accept; try discriminate;
     destruct fv; cbn in *; try discriminate;
@@ -224,44 +365,119 @@ Proof.
     destruct sa, cp, cvv, x, hvpc, vpc, hvc, vc; cbn in *; try discriminate; reflexivity.
 Qed.
 
-(* client side (flight sent by the server), with the fix switched on: sound *)
-Theorem client13_fixed_accept_implies_checks :
-  forall k v, p_from_client v = false -> flight13_with true k v = Accept -> client13_required k v = true.
+Theorem server13_accept_implies_checks :
+  forall req k v, p_from_client v = true -> flight13_with req k v = Accept -> server13_required k v = true.
+Proof. intros req k v. apply server13_accept_implies_checks_gen. Qed.
+
+(* client side (flight sent by the server), with the F6 fix switched on: sound *)
+Theorem client13_fixed_accept_implies_checks_gen :
+  forall bind k v, p_from_client v = false -> flight13_gen bind true k v = Accept -> client13_required k v = true.
 Proof.
-  intros [sk p hvpc hvc] [fc cm cn cp cvm sa cvv x vpc vc fv] Hfc. cbn in Hfc. subst fc.
-  unfold flight13_with, flight13_certificate, flight13_certificate_verify, flight13_identity,
+  intros bind [sk p hvpc hvc] [fc cm cn cp cvm sa cvv x vpc vc fv oid fk bl] Hfc. cbn in Hfc. subst fc.
+  unfold flight13_gen, flight13_certificate, flight13_certificate_verify_with, flight13_identity,
     flight13_finished_with, client13_required, p_pop, p_has_certs.
   cbn [k_skip_verify k_policy k_has_vpc k_has_vc p_from_client p_cert_msg p_certs_nonempty p_cert_parses p_cv_msg
-       p_scheme_allowed p_cv_valid p_x509_ok p_vpc_ok p_vc_ok p_fin_valid].
+       p_scheme_allowed p_cv_valid p_x509_ok p_vpc_ok p_vc_ok p_fin_valid p_pss_oid_ok p_scheme_fits_key p_signed_by_leaf].
   intros H. apply andthen_accept in H. destruct H as [Hc H]. apply andthen_accept in H. destruct H as [Hcv Hf].
   destruct cvm, cm, cn; cbn in *; norm_accept; try discriminate;
     destruct fv; cbn in *; try discriminate;
     destruct sa, cp, cvv, sk, x, hvpc, vpc, hvc, vc; cbn in *; try discriminate; reflexivity.
 Qed.
 
+Theorem client13_fixed_accept_implies_checks :
+  forall k v, p_from_client v = false -> flight13_with true k v = Accept -> client13_required k v = true.
+Proof. intros k v. apply client13_fixed_accept_implies_checks_gen. Qed.
+
 (* as coded: whenever the server flight does carry a Certificate, all checks are made ... *)
-Theorem client13_accept_implies_checks_partial :
-  forall k v, p_from_client v = false -> p_cert_msg v = true ->
-    flight13_with false k v = Accept -> client13_required k v = true.
+Theorem client13_accept_implies_checks_partial_gen :
+  forall bind k v, p_from_client v = false -> p_cert_msg v = true ->
+    flight13_gen bind false k v = Accept -> client13_required k v = true.
 Proof.
-  intros [sk p hvpc hvc] [fc cm cn cp cvm sa cvv x vpc vc fv] Hfc Hcm. cbn in Hfc, Hcm. subst fc cm.
-  unfold flight13_with, flight13_certificate, flight13_certificate_verify, flight13_identity,
+  intros bind [sk p hvpc hvc] [fc cm cn cp cvm sa cvv x vpc vc fv oid fk bl] Hfc Hcm. cbn in Hfc, Hcm. subst fc cm.
+  unfold flight13_gen, flight13_certificate, flight13_certificate_verify_with, flight13_identity,
     flight13_finished_with, client13_required, p_pop, p_has_certs.
   cbn [k_skip_verify k_policy k_has_vpc k_has_vc p_from_client p_cert_msg p_certs_nonempty p_cert_parses p_cv_msg
-       p_scheme_allowed p_cv_valid p_x509_ok p_vpc_ok p_vc_ok p_fin_valid].
+       p_scheme_allowed p_cv_valid p_x509_ok p_vpc_ok p_vc_ok p_fin_valid p_pss_oid_ok p_scheme_fits_key p_signed_by_leaf].
   intros H. apply andthen_accept in H. destruct H as [Hc H]. apply andthen_accept in H. destruct H as [Hcv Hf].
   destruct cvm, cn; cbn in *; norm_accept; try discriminate;
     destruct fv; cbn in *; try discriminate;
     destruct sa, cp, cvv, sk, x, hvpc, vpc, hvc, vc; cbn in *; try discriminate; reflexivity.
 Qed.
 
+Theorem client13_accept_implies_checks_partial :
+  forall k v, p_from_client v = false -> p_cert_msg v = true ->
+    flight13_with false k v = Accept -> client13_required k v = true.
+Proof. intros k v. apply client13_accept_implies_checks_partial_gen. Qed.
+
+(* F45 in DTLS 1.3, either direction: repaired verification binds scheme and key *)
+Theorem flight13_accept_binds_signature :
+  forall req k v, sig_sound_p v -> flight13_gen true req k v = Accept -> p_cv_msg v = true ->
+    p_scheme_fits_key v = true /\ p_signed_by_leaf v = true.
+Proof.
+  intros req k v Hsound Ha Hcv. unfold flight13_gen in Ha.
+  apply andthen_accept in Ha. destruct Ha as [_ Ha]. apply andthen_accept in Ha. destruct Ha as [Ha _].
+  unfold flight13_certificate_verify_with in Ha. rewrite Hcv in Ha. cbn [negb] in Ha.
+  norm_accept. cbn [negb orb] in *.
+  match goal with H : p_cert_parses v && p_cv_valid v = true |- _ => apply andb_true_iff in H; destruct H as [_ Hsig] end.
+  split; auto.
+Qed.
+
+Definition f45_cfg13 : cfg13 := mk_cfg13 false RequireAndVerifyClientCert false false.
+Definition f45_pview (from_client : bool) : pview :=
+  mk_pview from_client true true true true true true (* the ECDSA routine accepts *) true true true true
+           true false (* scheme does not fit the key *) false (* not by the leaf key *).
+
+Theorem flight13_scheme_confusion_refuted :
+  forall from_client, exists k v, p_from_client v = from_client /\ sig_sound_p v /\ k_skip_verify k = false /\
+    k_policy k = RequireAndVerifyClientCert /\ p_x509_ok v = true /\
+    (forall req, flight13_gen false req k v = Accept) /\
+    p_scheme_fits_key v = false /\ p_signed_by_leaf v = false /\ flight13_credential k v = false.
+Proof.
+  intros fc. exists f45_cfg13, (f45_pview fc). repeat split; try reflexivity.
+  - intros H. discriminate H.
+  - intros [|]; destruct fc; reflexivity.
+  - destruct fc; reflexivity.
+Qed.
+
+(* the statement that holds of the code as modelled, whichever way the F45 switch is set *)
+Theorem scheme_binding_as_coded :
+  if verify_binds_scheme_to_key
+  then (forall c v, sig_sound_s v -> client12 c v = Accept -> sv_suite v = SCert ->
+          sv_scheme_fits_key v = true /\ sv_signed_by_leaf v = true) /\
+       (forall s v, sig_sound_c v -> server12 s v = Accept -> cl_certs_given v = true ->
+          cl_scheme_fits_key v = true /\ cl_signed_by_leaf v = true) /\
+       (forall k v, sig_sound_p v -> flight13 k v = Accept -> p_cv_msg v = true ->
+          p_scheme_fits_key v = true /\ p_signed_by_leaf v = true)
+  else (exists c v, sig_sound_s v /\ cc_skip_verify c = false /\ sv_suite v = SCert /\
+          client12 c v = Accept /\ sv_signed_by_leaf v = false) /\
+       (exists s v, sig_sound_c v /\ sc_policy s = RequireAndVerifyClientCert /\
+          server12 s v = Accept /\ cl_signed_by_leaf v = false) /\
+       (exists k v, sig_sound_p v /\ k_skip_verify k = false /\ flight13 k v = Accept /\ p_signed_by_leaf v = false).
+Proof.
+  unfold client12, server12, server12_with, flight13, flight13_with.
+  destruct verify_binds_scheme_to_key.
+  - split; [|split].
+    + intros c v H H0 H1. destruct (client_accept_binds_signature c v H H0 H1) as (A & B & _). auto.
+    + intros s v H H0 H1. destruct (server_accept_binds_signature _ s v H H0 H1) as (A & B & _). auto.
+    + intros k v H H0 H1. exact (flight13_accept_binds_signature _ k v H H0 H1).
+  - split; [|split].
+    + exists f45_ccfg, f45_sview.
+      split; [intros H; discriminate H|]. repeat (split; [reflexivity|]). reflexivity.
+    + exists f45_scfg, f45_cview.
+      split; [intros H; discriminate H|]. split; [reflexivity|].
+      split; [destruct server12_checks_client_finished; reflexivity|reflexivity].
+    + exists f45_cfg13, (f45_pview false).
+      split; [intros H; discriminate H|]. split; [reflexivity|].
+      split; [destruct client13_requires_server_certificate; reflexivity|reflexivity].
+Qed.
+
 (* ... but a server flight [EncryptedExtensions; Finished] with no Certificate and no
    CertificateVerify is accepted by a client that verifies chains (InsecureSkipVerify = false):
-   the peer is unauthenticated.  Suspected defect F6. *)
+   the peer is unauthenticated.  Defect F6 (known finding). *)
 Definition f6_cfg : cfg13 := mk_cfg13 false NoClientCert false false.
 Definition f6_view : pview :=
   mk_pview false (* from server *) false (* no Certificate *) false false false (* no CertificateVerify *)
-           false false false false false true (* Finished verifies *).
+           false false false false false true (* Finished verifies *) true false false.
 
 Theorem client13_unauthenticated_server_refuted :
   exists k v, p_from_client v = false /\ k_skip_verify k = false /\
@@ -269,7 +485,7 @@ Theorem client13_unauthenticated_server_refuted :
     flight13_with false k v = Accept /\ client13_required k v = false.
 Proof. exists f6_cfg, f6_view. repeat split. Qed.
 
-(* the verdict of the code as it stands, whichever way the two switches are set *)
+(* the verdict of the code as it stands, whichever way the switches are set *)
 Theorem client13_as_coded :
   if client13_requires_server_certificate
   then forall k v, p_from_client v = false -> flight13 k v = Accept -> client13_required k v = true
